@@ -58,7 +58,8 @@ func (r *KeyRing) copyKey(other *asn1.Key) (*asn1.Key, error) {
 	if other.ValidSince.After(other.ValidUntil) {
 		return nil, api.ErrInvalidCryptoperiod
 	}
-	if len(other.Data) == 0 {
+	// A destroyed key stays in its key ring without data.
+	if len(other.Data) == 0 && api.KeyState(other.State) != api.KeyDestroyed {
 		return nil, api.ErrNoKeyData
 	}
 	key := *other
